@@ -12,6 +12,7 @@ from concurrent.futures import ThreadPoolExecutor
 import vlib
 from engines import register
 
+PARSE_EV = {"0": "ParseBegin", "1": "ParseEnd", "2": "ParseFail"}   # PackageParsing, PackageParsed, ParseFailed
 TERMINAL = {"5", "6", "7"}   # TargetBuilt, TargetCached, TargetBuildFailed (src/core/state.go)
 
 
@@ -136,6 +137,7 @@ def run_scenario(ctx, idx, sc, seed, hang_timeout=40):
     wall = time.time() - t0
     fault = sc.get("fault") or ["ok"] * sc["n"]
     recs = [dict(ev="Reset", n=sc["n"], req=[str(t) for t in sc["req"]], expectOK=sc["expectOK"], scenario=idx,
+                 pkgs={str(t): pkg[t] for t in pkg},
                  deps={str(t): [str(d) for d in sc["deps"][t - 1]] + (["x%d" % t] if fault[t - 1] in ("undefdep", "nopkg", "parseerr") else [])
                        for t in range(1, sc["n"] + 1)})]
     lab2t = {"//%s:t%d" % (pkg[t], t): t for t in pkg}
@@ -149,6 +151,9 @@ def run_scenario(ctx, idx, sc, seed, hang_timeout=40):
                 recs.append(e)
             elif e["ev"] == "Report" and e.get("status") == "Build" and e.get("code") in TERMINAL and e["label"] in lab2t:
                 recs.append(dict(ev="Report", t=str(lab2t[e["label"]]), code=int(e["code"])))
+            elif e["ev"] == "Report" and e.get("status") == "Parse" and e.get("code") in PARSE_EV:
+                # PackageParsing / PackageParsed / ParseFailed of the package the label lives in
+                recs.append(dict(ev=PARSE_EV[e["code"]], p=e["label"].split(":")[0].lstrip("/") or "."))
     if not hung:
         recs.append(dict(ev="Exit", code=rc))
     shutil.rmtree(base, ignore_errors=True)
@@ -189,7 +194,15 @@ def classify(r):
         started = [x["t"] for x in recs[:recs.index(e)] if x["ev"] == "Start"]
         if e["t"] in started:
             return "C04 command-started-twice"
+        before = recs[:recs.index(e)]
+        p = recs[0].get("pkgs", {}).get(e["t"])
+        if p is not None and not any(x["ev"] == "ParseEnd" and x["p"] == p for x in before):
+            return "C04 command-started-before-its-package-was-parsed"
         return "C04 command-started-before-dependency-succeeded"
+    if e.get("ev") == "ParseBegin":
+        return "C04 package-parsed-more-than-once"
+    if e.get("ev") == "ParseEnd":
+        return "C04 package-parse-ended-without-beginning"
     if e.get("ev") == "Report":
         return "C04 terminal-report-duplicated-or-before-command-end"
     if e.get("ev") == "Exit":
@@ -197,6 +210,8 @@ def classify(r):
         rep = {x["t"] for x in recs if x["ev"] == "Report"}
         if not ended <= rep:
             return "C04 completed-target-not-reported"
+        if e["code"] == 0 and sc["expectOK"] and any(x["ev"] == "ParseFail" for x in recs):
+            return "C05 exit-status-zero-despite-a-parse-failure"
         if (e["code"] == 0) != sc["expectOK"]:
             return "C05 exit-status-unfaithful expected-%s got-%d" % ("zero" if sc["expectOK"] else "nonzero", e["code"])
         return "C05 exit-status-inconsistent-with-built-set"
@@ -384,6 +399,21 @@ def common(ctx, prop):
                     break
             if done:
                 break
+        # ... and a second interpretation of a package's BUILD file (the ParseBegin record duplicated) must be rejected
+        for r in results:
+            if r["hung"] or r in rejected:
+                continue
+            recs = [dict(x) for x in r["recs"]]
+            idx = [i for i, x in enumerate(recs) if x["ev"] == "ParseEnd"]
+            if idx:
+                recs.insert(idx[0] + 1, dict(ev="ParseBegin", p=recs[idx[0]]["p"]))
+                ok, hw, _ = vlib.validate_trace(ctx, "TraceSched", "TraceSched.cfg", recs, dfs=False)
+                if ok:
+                    raise vlib.Infra("binding self-test failed: a trace with a package parsed twice was accepted")
+                ctx.extra["binding_selftest_parse"] = "rejected (package parsed a second time)"
+                break
+        else:
+            raise vlib.Infra("binding self-test: no recorded trace contains a ParseEnd event (Report hook for PackageParsed missing?)")
     for r in rejected:
         sig = classify(r)
         if sig.startswith(prop):
@@ -408,7 +438,7 @@ CLAIM04 = dict(
          "critical section; TLC checks at-most-once execution, dependencies-first, faithful exit and termination on every 3-target scenario. Every "
          "TLC-enumerated scenario (sampled in quick) plus larger random DAGs with wide fan-in is built from an empty plz-out by the real plz binary with "
          "-n 1..16 and delay injection; the recorded property-level trace (command start/end lines written by the commands themselves, terminal Report "
-         "events from the logResult hook, exit status) is validated by TLC against TraceSched.tla, which allows exactly the behaviours the statement allows.",
+         "events and package parse begin / end / failure events from the logResult / LogParseResult hooks, exit status) is validated by TLC against TraceSched.tla, which allows exactly the behaviours the statement allows.",
     note="Real schedules are sampled, not enumerated; require/provide and parse-time discovery are exercised only through multi-package layouts; "
          "trusted: O_APPEND ordering of the single trace file, the Report hook (one guarded line in logResult), TLC.",
     technique="TLA+ specs Scheduler.tla (TLC model checking incl. liveness) and TraceSched.tla (TLC trace validation of real plz executions)")
